@@ -415,17 +415,20 @@ int32_t jls_raw_chunk_scan(struct jls_raw_s * self) {
         offset += HEADER_ALIGN - (offset & (HEADER_ALIGN - 1));
     }
 
-    while (offset < offset_end) {
+    // each pass examines every aligned position whose header lies in the block;
+    // the next pass starts at the first position that was not examined.
+    while ((offset + (int64_t) sizeof(struct jls_chunk_header_s)) <= offset_end) {
         if (jls_bk_fseek(&self->backend, offset, SEEK_SET)) {
             return JLS_ERROR_IO;
         }
         b = buffer;
         size_t sz = sizeof(buffer);
         if ((offset + (int64_t) sz) > offset_end) {
-            sz = offset_end - offset;
+            sz = (size_t) (offset_end - offset);
         }
-        size_t sz_block = sz;
-        jls_bk_fread(&self->backend, buffer, (unsigned const) sz);
+        if (jls_bk_fread(&self->backend, buffer, (unsigned const) sz)) {
+            return JLS_ERROR_IO;
+        }
         while (sz >= sizeof(struct jls_chunk_header_s)) {
             struct jls_chunk_header_s * hdr = (struct jls_chunk_header_s *) b;
             uint32_t crc32 = jls_crc32c_hdr(hdr);
@@ -436,7 +439,6 @@ int32_t jls_raw_chunk_scan(struct jls_raw_s * self) {
             b += HEADER_ALIGN;
             offset += HEADER_ALIGN;
         }
-        offset += sz_block - sizeof(struct jls_chunk_header_s) + 8;
     }
     return JLS_ERROR_NOT_FOUND;
 }
